@@ -235,7 +235,7 @@ class C15World(World):
                     self.probes["inverse_compared"] += 1
                 if self.inc[0].training:
                     self.probes["training_mode_compared"] += 1
-        log.add(first[0], first[1])
+        log.add(first[0], "sampled" if sampling else first[1])
         return first[0] in ("ok", "interrupted")
 
     # ------------------------------------------------------------ step
